@@ -7,6 +7,7 @@ import (
 	"math/big"
 	"os"
 	"sort"
+	"strconv"
 	"strings"
 
 	"golang.org/x/tools/go/ssa"
@@ -51,6 +52,8 @@ type SpecEnv struct {
 	inOld      bool
 	curSpec    *specSig
 	loop       *loopInfo
+	callSite   bool              // evaluating a callee's contract at a call site
+	arb        map[string]string // arbitrary heap standing for the callee's lock-time state
 }
 
 func (e *Enc) newSpecEnv(fr *frame, st *bstate) *SpecEnv {
@@ -1034,7 +1037,38 @@ func (env *SpecEnv) call(x *CExpr) (SVal, error) {
 		}
 		return SVal{T: e.subRef(pt.Elem(), fi, a.T), Typ: types.NewPointer(si.St.Field(fi).Type()), Sort: "Int"}, nil
 	case "atlock": // atlock(e): e evaluated in the heap right after the first mutex Lock of the function (the linearization point's pre-state)
+		if env.callSite {
+			// in a callee's postcondition the callee's lock-time state is unknown to the caller:
+			// an arbitrary heap (the same one throughout the postconditions of this call)
+			h := env.arb
+			n := *env
+			n.heapFn = func(c *Comp, old bool) string {
+				if v, ok := h[c.Name]; ok {
+					return v
+				}
+				v := e.fresh("atlock."+c.Name, c.Sort)
+				h[c.Name] = v
+				return v
+			}
+			n.inOld = false
+			return (&n).tr(x.Args[0])
+		}
 		n := *env
+		if len(x.Args) == 2 && x.Args[1].Op == "lit-int" {
+			// atlock(e, k): after the k-th Lock call of the function body (in program order)
+			k, _ := strconv.Atoi(x.Args[1].Int)
+			if k >= 1 && k <= len(e.lockHeaps) {
+				n.heap = e.lockHeaps[k-1]
+				n.inOld = false
+				return (&n).tr(x.Args[0])
+			}
+			if env.oldHeap == nil {
+				return SVal{}, fmt.Errorf("atlock: no %d-th lock before this point", k)
+			}
+			n.heap = env.oldHeap
+			n.inOld = false
+			return (&n).tr(x.Args[0])
+		}
 		if e.lockHeap != nil {
 			n.heap = e.lockHeap
 		} else if env.oldHeap != nil {
